@@ -618,3 +618,17 @@ func c11groupCountFromTruncatedStart(c *an.Ctx) {
 	}
 	_ = okShape
 }
+
+func init() {
+	old := All["C11"].Run
+	All["C11"].Run = func(c *an.Ctx) {
+		old(c)
+		mergeIdiom(c, "C11.R10", "the shard key of a row (write side, both writers) and of a condition (read side) is built by merging the sorted shard-key names with the sorted tags: the smaller side's cursor advances", map[string]int{
+			"lib/util/lifted/vm/protoparser/influx:Row.UnmarshalShardKeyByTag": 1,
+			"lib/record:UnmarshalShardKeys":                                    1,
+			"lib/util/lifted/influx/meta:ShardGroupInfo.TargetShards":          1,
+		}, "a tag that sorts between two shard-key names must be stepped over on both sides alike, otherwise the read side hashes another key than the write side")
+	}
+	All["C11"].Rules += " R10"
+	addLevel("C11", "the three builders of a shard key (line-protocol rows, record rows, query conditions) walk the sorted shard-key names and the sorted tags as a two-cursor merge in which the cursor of the smaller side advances.")
+}
